@@ -1470,19 +1470,22 @@ V(id='c13-benign-more-guard-bits-in-pow', prop='C13', file='mpmath/libmp/libelef
   new="    wp = prec + 20 + max(0, texp + tbc + bitcount(abs(sexp + sbc)))",
   expect='silent')
 V(id='c07-shared-prefix-order-ignored', prop='C07', file='mpmath/libmp/libmpi.py',
-  old="            if mpf_gt(from_str(lower, wp, round_floor),\n                      from_str(upper, wp, round_floor)):\n                lower, upper = upper, lower\n", new="",
+  old="            a2 = from_str(upper, prec, round_floor)\n            b2 = from_str(lower, prec, round_ceiling)\n            if mpf_lt(a2, a): a = a2\n            if mpf_gt(b2, b): b = b2\n", new="",
   expect='fire:C-R7:mpi_from_str')
 V(id='c14-shared-prefix-order-ignored', prop='C14', file='mpmath/libmp/libmpi.py',
-  old="            if mpf_gt(from_str(lower, wp, round_floor),\n                      from_str(upper, wp, round_floor)):\n                lower, upper = upper, lower\n", new="",
+  old="            a2 = from_str(upper, prec, round_floor)\n            b2 = from_str(lower, prec, round_ceiling)\n            if mpf_lt(a2, a): a = a2\n            if mpf_gt(b2, b): b = b2\n", new="",
   expect='fire:C-R6:mpi_from_str')
 V(id='c07-shared-prefix-by-sign-only', prop='C07', file='mpmath/libmp/libmpi.py',
-  old="            if mpf_gt(from_str(lower, wp, round_floor),\n                      from_str(upper, wp, round_floor)):\n", new="            if x.startswith('-'):\n",
+  old="            a = from_str(lower, prec, round_floor)\n            b = from_str(upper, prec, round_ceiling)\n            a2 = from_str(upper, prec, round_floor)\n            b2 = from_str(lower, prec, round_ceiling)\n            if mpf_lt(a2, a): a = a2\n            if mpf_gt(b2, b): b = b2\n", new="            if x.startswith('-'):\n                lower, upper = upper, lower\n            a = from_str(lower, prec, round_floor)\n            b = from_str(upper, prec, round_ceiling)\n",
+  expect='fire:C-R7:mpi_from_str')
+V(id='c07-shared-prefix-ordered-by-rounded-comparison', prop='C07', file='mpmath/libmp/libmpi.py',
+  old="            a = from_str(lower, prec, round_floor)\n            b = from_str(upper, prec, round_ceiling)\n            a2 = from_str(upper, prec, round_floor)\n            b2 = from_str(lower, prec, round_ceiling)\n            if mpf_lt(a2, a): a = a2\n            if mpf_gt(b2, b): b = b2\n", new="            if mpf_gt(from_str(lower, wp, round_floor),\n                      from_str(upper, wp, round_floor)):\n                lower, upper = upper, lower\n            a = from_str(lower, prec, round_floor)\n            b = from_str(upper, prec, round_ceiling)\n",
   expect='fire:C-R7:mpi_from_str')
 V(id='c07-shared-prefix-swap-wrong-way', prop='C07', file='mpmath/libmp/libmpi.py',
-  old="            if mpf_gt(from_str(lower, wp, round_floor),\n                      from_str(upper, wp, round_floor)):\n", new="            if mpf_lt(from_str(lower, wp, round_floor),\n                      from_str(upper, wp, round_floor)):\n",
+  old="            if mpf_lt(a2, a): a = a2\n            if mpf_gt(b2, b): b = b2\n", new="            if mpf_gt(a2, a): a = a2\n            if mpf_lt(b2, b): b = b2\n",
   expect='fire:C-R7:mpi_from_str')
 V(id='c07-benign-shared-prefix-lt-reversed', prop='C07', file='mpmath/libmp/libmpi.py',
-  old="            if mpf_gt(from_str(lower, wp, round_floor),\n                      from_str(upper, wp, round_floor)):\n", new="            if mpf_lt(from_str(upper, wp, round_floor),\n                      from_str(lower, wp, round_floor)):\n",
+  old="            if mpf_lt(a2, a): a = a2\n            if mpf_gt(b2, b): b = b2\n", new="            if mpf_gt(a, a2): a = a2\n            if mpf_lt(b, b2): b = b2\n",
   expect='silent')
 V(id='c07-empty-prefix-exponent-as-plain', prop='C07', file='mpmath/libmp/libmpi.py',
   old="        if s[0] == '[' and s[-1] == ']':", new="        if s[0] == '[':", expect='fire:C-R7:mpi_from_str')
@@ -2114,7 +2117,7 @@ V(id='c07-chunk-larger-than-limit', prop='C07', file='mpmath/libmp/libmpf.py',
   old="    if len(x) <= 600:\n        return int(x, base)", new="    if len(x) <= 6000:\n        return int(x, base)",
   expect='fire:L-R1:str_to_int')
 V(id='c07-chunk-helper-not-splitting', prop='C07', file='mpmath/libmp/libmpf.py',
-  old="    return str_to_int(x[:-half], base) * base**half + str_to_int(x[-half:], base)", new="    return int(x, base)",
+  old="    return _digits_to_int(x[:-half], base) * base**half + \\\n        _digits_to_int(x[-half:], base)\n", new="    return int(x, base)\n",
   expect='fire:L-R1:str_to_int')
 V(id='c07-benign-smaller-chunks', prop='C07', file='mpmath/libmp/libmpf.py',
   old="    if len(x) <= 600:\n        return int(x, base)", new="    if len(x) <= 400:\n        return int(x, base)",
@@ -2651,3 +2654,34 @@ V(id='c40-constant-registry-not-filled', prop='C40', file='mpmath/__init__.py',
 V(id='c40-constant-deepcopy-new-object', prop='C40', file='mpmath/ctx_mp_python.py',
   old="    def __deepcopy__(self, memo):\n        return self\n", new="    def __deepcopy__(self, memo):\n        return self.context.mpf(self)\n",
   expect='fire:P-R3:_constant.__deepcopy__')
+
+# ---- C01 E-R7: sign / mantissa arguments of the normalisers are non-negative (sa/intsign.py) ----
+V(id='c01-from-man-exp-keeps-negative-mantissa', prop='C01', file='mpmath/libmp/libmpf.py',
+  old="    if man < 0:\n        sign = 1\n        man = -man\n    if man < 1024:\n", new="    if man < 0:\n        sign = 1\n    if man < 1024:\n",
+  expect='fire:E-R7:from_man_exp')
+V(id='c01-mpf-add-equal-exponents-difference-unnegated', prop='C01', file='mpmath/libmp/libmpf.py',
+  old="            else:\n                man = -man\n                ssign = 1\n        bc = bitcount(man)\n        return normalize(ssign, man, texp, bc, prec or bc, rnd)\n",
+  new="            else:\n                ssign = 1\n        bc = bitcount(man)\n        return normalize(ssign, man, texp, bc, prec or bc, rnd)\n",
+  expect='fire:E-R7:mpf_add')
+V(id='c01-mpf-neg-sign-minus-one', prop='C01', file='mpmath/libmp/libmpf.py',
+  old="    return normalize1(1-sign, man, exp, bc, prec, rnd)", new="    return normalize1(sign-1, man, exp, bc, prec, rnd)",
+  expect='fire:E-R7:mpf_neg')
+V(id='c01-benign-from-man-exp-abs', prop='C01', file='mpmath/libmp/libmpf.py',
+  old="    if man < 0:\n        sign = 1\n        man = -man\n    if man < 1024:\n", new="    if man < 0:\n        sign = 1\n    man = abs(man)\n    if man < 1024:\n",
+  expect='silent')
+
+# ---- C07 second hunt: C-R7 enclosure of both literals, L-R2 separators (fixes bfcc401, 1134bc3) ----
+V(id='c07-shared-prefix-upper-from-one-literal', prop='C07', file='mpmath/libmp/libmpi.py',
+  old="            if mpf_gt(b2, b): b = b2\n", new="",
+  expect='fire:C-R7:mpi_from_str')
+V(id='c07-benign-shared-prefix-min-max-calls', prop='C07', file='mpmath/libmp/libmpi.py',
+  old="            a = from_str(lower, prec, round_floor)\n            b = from_str(upper, prec, round_ceiling)\n            a2 = from_str(upper, prec, round_floor)\n            b2 = from_str(lower, prec, round_ceiling)\n            if mpf_lt(a2, a): a = a2\n            if mpf_gt(b2, b): b = b2\n",
+  new="            a = MIN(from_str(lower, prec, round_floor), from_str(upper, prec, round_floor))\n            b = MAX(from_str(lower, prec, round_ceiling), from_str(upper, prec, round_ceiling))\n",
+  expect='silent')
+V(id='c07-long-string-cut-with-separators', prop='C07', file='mpmath/libmp/libmpf.py',
+  old="        x = x.replace('_', '')\n    return sign * _digits_to_int(x, base)\n", new="        pass\n    return sign * _digits_to_int(x, base)\n",
+  expect='fire:L-R2:str_to_int')
+V(id='c07-long-string-piece-with-sign', prop='C07', file='mpmath/libmp/libmpf.py',
+  old="    if not x or x[0] in '+-' or x[0].isspace() or x[-1].isspace():\n        raise ValueError(\"invalid literal for int(): %r\" % x[:30])\n    if len(x) <= 600:\n        return int(x, base)\n    half",
+  new="    if len(x) <= 600:\n        return int(x, base)\n    half",
+  expect='fire:L-R2:_digits_to_int')
